@@ -296,6 +296,9 @@ def g_ostr(s):
 
 
 def g_Z(n):
+    if isinstance(n, int) and n.bit_length() > 13000:
+        # beyond CPython's int -> decimal string limit (4300 digits): hexadecimal has no limit
+        return "(%s0x%x)%%Z" % ("-" if n < 0 else "", abs(n))
     return "(%d)%%Z" % n
 
 
